@@ -283,12 +283,14 @@ def firstSoa (s : Inbound) (rr : RRset) (restEmpty : Bool) : R :=
 def openTxn (s : Inbound) : Inbound :=
   if s.txn.isNone then { s with txn := some (writer s.zone (!s.incremental)) } else s
 
-/-- the rcode and question checks of `process_message` -/
-def headerErr (s : Inbound) (m : Msg) : Option XErr :=
+/-- the rcode and question checks of `process_message` for a transfer of type `t` of the zone at `o` -/
+def headerErrOf (o : Name) (t : Nat) (m : Msg) : Option XErr :=
   if m.rcode ≠ 0 then some .TransferError
   else match m.question with
-    | q :: _ => if q.1 ≠ s.origin then some .FormError else if q.2 ≠ s.rdtype then some .FormError else none
+    | q :: _ => if q.1 ≠ o then some .FormError else if q.2 ≠ t then some .FormError else none
     | [] => none
+
+def headerErr (s : Inbound) (m : Msg) : Option XErr := headerErrOf s.origin s.rdtype m
 
 /-- first-SOA handling (first message only) and the loop over the rest of the answer section -/
 def procBody (fix : Bool) (s : Inbound) (m : Msg) : R :=
